@@ -14,6 +14,7 @@
     recvMessageWithError (length gate, options)      -> recvMaxLen / recvOpts
     sendMessageloop `send` + BGPMessage.Serialize    -> sendMaxLen / sendOpts / serializeFits / sendWrites
     fsm.sendNotification                             -> notifWrites
+    bgp.IsAddPathEnabled                             -> expectsPathId
     keepaliveTicker, hold timer of openconfirm/established -> tickerSecs / holdTimerSecs
 
   Representation choices (all only re-encodings, none changes a decision):
@@ -409,6 +410,14 @@ def sendMaxLen (s : PeerState) (t : MsgType) : Nat :=
     | .update | .notification | .routeRefresh => 65535
     | _ => 4096
   else 4096
+
+/-- bgp.IsAddPathEnabled(decode, f, options): how every NLRI parser / serialiser CONSUMES the
+    negotiated map — path identifiers are expected when decoding iff the RECEIVE bit of the family's
+    negotiated mode is set, written when encoding iff the SEND bit is set (`o[f]` of an absent key is
+    BGP_ADD_PATH_NONE) -/
+def expectsPathId (opts : Opts) (decode : Bool) (f : Family) : Bool :=
+  let m := (fmLookup opts.addPath f).getD 0
+  if decode then hasRecv m else hasSend m
 
 /-- BGP_HEADER_LENGTH: every length limit is on the TOTAL message, header included -/
 def headerLen : Nat := 19
